@@ -1,4 +1,6 @@
 import NimaVerif.Lemmas.Trivia
+import NimaVerif.Lemmas.FragNFParse
+import NimaVerif.Lemmas.FragFlat
 /-!
 # C02 — canonical (RFC-0166-formatted) text is reproduced byte for byte (trivia algebra)
 
@@ -129,5 +131,50 @@ example : CanonML "a".toList ["b".toList, []] 3 :=
   written_comments_are_canonical 4 " a\n       b\n     ".toList (by decide)
 /-- a non-canonical gap is normalised, not reproduced -/
 example : separatorFromLayout (Layout.fromGap "\t \r\n\n   ".toList) 0 = "\n\n   ".toList := by decide
+
+
+section Fragment
+open Nima.Frag
+
+/-! ## Container fragment (L3–L5): what "reproduced byte for byte" implies
+
+Same models as `Props/C01.lean` (section Fragment). `reproduced f` is decidable per file (the
+harness evaluates it on RFC-0166 samples through the driver); the theorem says that the texts the
+tool reproduces are in the spacing normal form of C18 — so a text outside that normal form is never
+reproduced. That every RFC-formatted text of the fragment IS reproduced is observed (G-canon), not
+proved: it needs the second-pass analysis that `Props/C06.lean` (section Fragment) leaves open. -/
+
+/-- the round trip gives back the text the tree was parsed from -/
+def reproduced (f : File) : Bool := decide (f.roundtrip = .ok f.flatten)
+
+/-- A text of the fragment that is reproduced byte for byte is in spacing normal form: no
+    whitespace before the first token, every separator `""`, `" "` or a line break / one blank line
+    and an indentation run, `;` attached, at most one blank line at the end (under the exclusion of
+    `C18.frag_spacing_nf`). -/
+theorem frag_reproduced_is_normal_form (f : File) (s : Src) (hwf : f.wf = true) (_hws : f.noLeadingWs = true)
+    (hp : f.parse = .ok s) (hclean : s.beforeFlatB = true) (hr : reproduced f = true) :
+    concat s.rebuildP = f.flatten ∧ (summ s.rebuildP).fileOk = true := by
+  refine ⟨?_, file_nf_flat f s hwf hp hclean⟩
+  have h1 : f.roundtrip = .ok f.flatten := by simpa [reproduced] using hr
+  simp only [File.roundtrip, hp] at h1
+  injection h1 with h1
+  rw [concat_srcRebuildP, h1]
+
+/-- `{⏎  pname = "x";⏎  # note⏎  src = [⏎    ./a.nix⏎  ];⏎⏎  meta = { };⏎}⏎` -/
+def rfcSample : File :=
+  { items := .elem [] (.set false []
+      (.bind "\n  ".toList "pname".toList [] " ".toList [] " ".toList (.leaf .str "\"x\"".toList) [] []
+      (.cmt "\n  ".toList "# note".toList
+      (.bind "\n  ".toList "src".toList [] " ".toList [] " ".toList
+        (.list (.elem "\n    ".toList (.leaf .path "./a.nix".toList) .nil) "\n  ".toList) [] []
+      (.bind "\n\n  ".toList "meta".toList [] " ".toList [] " ".toList (.set false [] .nil " ".toList) [] [] .nil))))
+      "\n".toList) .nil,
+    endGap := "\n".toList }
+
+example : rfcSample.flatten =
+    "{\n  pname = \"x\";\n  # note\n  src = [\n    ./a.nix\n  ];\n\n  meta = { };\n}\n".toList := by decide
+example : rfcSample.wf = true ∧ rfcSample.noLeadingWs = true ∧ reproduced rfcSample = true := by decide
+
+end Fragment
 
 end Nima.C02
